@@ -499,7 +499,8 @@ func c10Body() func(h []dsim.Rec) {
 		dsim.Settle("quiescence")
 	}
 	snapshot := cons.snapshot()
-	alive := !cons.stopped && !cons.ended
+	cStopped, cEnded := cons.state()
+	alive := !cStopped && !cEnded
 	if !closeEarly {
 		e.node.Close()
 	}
